@@ -55,9 +55,50 @@ def base_env(extra=None):
     return env
 
 
+_PRIVATE_EXE = None
+_PRIVATE_LOCK = threading.Lock()
+
+
+def private_probe():
+    with _PRIVATE_LOCK:
+        return _private_probe()
+
+
+def _private_probe():
+    """A hard link to the probe binary as built when this run started: a rebuild during the run (which replaces
+    the file) must not change the code under test mid-run nor break hooks, which are spawned by path."""
+    global _PRIVATE_EXE
+    if _PRIVATE_EXE is None:
+        d = os.path.join(BUILD, "run")
+        os.makedirs(d, exist_ok=True)
+        # stale links of dead runs
+        for f in os.listdir(d):
+            try:
+                pid = int(f.split("-")[1])
+                os.kill(pid, 0)
+            except (ValueError, IndexError, ProcessLookupError):
+                try:
+                    os.remove(os.path.join(d, f))
+                except OSError:
+                    pass
+            except PermissionError:
+                pass
+        path = os.path.join(d, "probe-%d" % os.getpid())
+        try:
+            if os.path.exists(path):
+                os.remove(path)
+            os.link(PROBE, path)
+        except OSError:
+            shutil.copy2(PROBE, path)
+        import atexit
+        atexit.register(lambda: os.path.exists(path) and os.remove(path))
+        _PRIVATE_EXE = path
+    return _PRIVATE_EXE
+
+
 class Worker:
     def __init__(self, exe=None, env_extra=None):
-        self.exe = exe or PROBE
+        self.exe = exe or private_probe()
         self.env_extra = env_extra
         self.p = None
         self.spawn()
